@@ -100,6 +100,8 @@ func (p *hPeer) QueueMessageWithEncoding(msg wire.Message, doneChan chan<- struc
 	if !p.forceGood && len(p.script) > 0 {
 		o = p.script[0]
 		p.script = p.script[1:]
+	} else if !p.forceGood && p.spec.TailSilent {
+		o = Outcome{Kind: OSilence}
 	}
 	late := p.pendingLate
 	p.pendingLate = nil
